@@ -524,6 +524,7 @@ def run_one(params: dict, chooser, deviations=True) -> dict:
                     await asyncio.sleep(650.0 if ending == 'rtimeout' else 20.0)
                     if network.server_connection.state == ConnectionState.CLOSED:
                         await network.connect_server()
+                        network.server_connection.start_reader_task()      # as the client does after its login
                         return network.server_connection.state.name
                     return 'not-closed'
                 world.op('u', 'reconnect', reconnect)
